@@ -420,7 +420,7 @@ def r15(rr, repo):
     push = [n for n in walk_scope(init) if isinstance(n, ast.Assign) and any(U(t) == 'self.push' for t in n.targets)]
     kept = [n for n in walk_scope(init) if isinstance(n, ast.Assign) and any(U(t) == 'self.ephemeral' for t in n.targets)]
     rr.floor('stores of the request socket and of the level in Sender.__init__', len(push) + len(kept), 2, za.mod, init)
-    sp_guard = [n for n in walk_scope(za.RS_send_push) if isinstance(n, ast.If)][:1]
+    sp_guard = [n for n in walk_scope(za.RS_send_push) if isinstance(n, ast.If) and 'ephemeral' in U(n.test)][:1]
     for text, want in (('tcp://host:5550', 0), ('tcp://host:5550?', 1), ('tcp://host:5550??', 2), ('ipc://pipe?', 1), ('ipc://pi?pe', 0)):
         try:
             pe = PEval({addr: Lit(text)})
